@@ -538,10 +538,9 @@ def coq_crosscheck(tag, cases, model_outs, limit=60):
     ex += sc
     if not ex:
         return 0, ''
-    if sc:
-        res, log = coq_build(['Replay.vo'])
-        if not all(res.values()):
-            return len(ex), 'coq/Replay.v does not build: ' + log[-400:]
+    res, log = coq_build(['Replay.vo', 'Glue.vo', 'FmtModel.vo', 'MatchModel.vo'])      # everything the scratch file requires, up to date
+    if not all(res.values()):
+        return len(ex), 'coq/Replay.v does not build: ' + log[-400:]
     d = os.path.join(BUILD, 'stmt')
     os.makedirs(d, exist_ok=True)
     fn = os.path.join(d, 'Cross_%s.v' % tag)
